@@ -161,3 +161,15 @@ Theorem C10_two_clearing_writes :
 Proof. exact c10c_example_two_clears. Qed.
 Print Assumptions C10_two_clearing_writes.
 
+(* the accounting with a hypothesis on the REQUESTS only (Proofs/C05a.v): u exists at the start and no request is the DELETE
+   of u - then u exists after every step (alive) *)
+From PV Require Import Proofs.C05a.
+Theorem C10_accounting_no_delete : forall cf reqs s d u g,
+  gen_of d u = Some g -> (forall r, In r reqs -> r <> RpDelete u) ->
+  let '(ts, d', tl) := a_run_tally cf u s (map (ainit cf) reqs) d (map (fun _ => 0) reqs) in
+  a_exec cf reqs s d = (ts, d') /\
+  acctL u ts tl (map (fun r => a_bounds (ainit cf r) u) reqs) /\
+  gen_of d' u = Some (g + sumZ tl).
+Proof. exact c10c_accounting_no_delete. Qed.
+Print Assumptions C10_accounting_no_delete.
+
